@@ -52,12 +52,23 @@ func Mv(r *Root, src, dst string) error {
 		return err
 	}
 
+	// A directory cannot be moved into itself or into one of its subdirectories.
+	srcAsDir, _ := srcObj.(*Directory)
+	for cur := dstDir; srcAsDir != nil && cur != nil; cur, _ = cur.parent.(*Directory) {
+		if cur == srcAsDir {
+			return fmt.Errorf("cannot move %s into itself or one of its subdirectories", src)
+		}
+	}
+
 	fsn, err := dstDir.Child(dstFname)
 	if err == nil {
 		switch n := fsn.(type) {
 		case *File:
 			_ = dstDir.Unlink(dstFname)
 		case *Directory:
+			if n == srcAsDir {
+				return fmt.Errorf("cannot move %s into itself or one of its subdirectories", src)
+			}
 			dstDir = n
 			dstFname = srcFname
 		default:
